@@ -80,7 +80,8 @@ class Interposer(object):
                 bct = conn._buffer_content_type
                 mct = getattr(m, "contentType", None)
                 if (bct is not None and bct != mct) or \
-                        (mct != 22 and m is not msg):
+                        (mct != 22 and m is not msg) or \
+                        hasattr(m, "raw_send"):
                     # a record of another content type cannot share the
                     # queue: flush what is queued, send it on its own (the
                     # transport of a byzantine peer never blocks on send)
@@ -144,3 +145,27 @@ class ProtectedCCS(object):
             self.was_protected = False
             for r in rl.sendRecord(ChangeCipherSpec().create()):
                 yield r
+
+
+class MergedRecord(object):
+    """A handshake message sent in ONE record together with the bytes of the
+    message that follows it; only the message itself enters the sender's
+    transcript now (the rule that drops the follower hashes it later, at its
+    proper place)."""
+    contentType = 22
+
+    def __init__(self, first, extra):
+        self.first = first
+        self.extra = bytes(extra)
+        self.handshakeType = getattr(first, "handshakeType", None)
+
+    def write(self):
+        return self.first.write()
+
+    def raw_send(self, conn):
+        from tlslite.messages import Message
+        data = self.first.write()
+        conn._handshake_hash.update(data)
+        for r in conn._recordLayer.sendRecord(
+                Message(22, bytearray(data) + bytearray(self.extra))):
+            yield r
